@@ -94,7 +94,7 @@ type CCSpec struct {
 //	Ready{N} Persist{N} Apply{N} Advance{N}            (Ready/Advance interface)
 //	AppendStep{N} AppendResp{N} ApplyStep{N} ApplyResp{N}  (storage threads)
 //	Propose{N, Tags=[tag...] (one entry per tag), I=payload size, B=batch as one MsgProp from a client (false: RawNode.Propose)}
-//	ConfChange{N, CC, I=unique context tag; optional CC2, J=its context tag: both changes travel in one MsgProp}
+//	ConfChange{N, CC, I=unique context tag; optional CC2, J=its context tag: both changes travel in one MsgProp; or Tags, J=payload size: ordinary proposals following the change in the same MsgProp}
 //	ReadIndex{N, I=context tag}
 //	Transfer{N, M=transferee} Campaign{N} ForgetLeader{N} Unreachable{N, M} SnapReport{N, M=peer, B=ok}
 //	Compact{N, I=snapshot back-off from applied, J=compaction back-off from snapshot index, B=sync}
